@@ -516,7 +516,7 @@ func (s *sink) Write(p []byte) (int, error) {
 }
 
 // writeToLimits: the model's `h writeto <lim>` (a WriteTo into a writer that fails part-way)
-const writeToLimits = false
+const writeToLimits = true
 
 // hl builds the `h` input line of a handler call; calls on a connection other than the
 // one the callback is for are written `h on <cid> <call> ...`
@@ -830,6 +830,18 @@ func (h *handler) scenarioScript(ci *connInfo, cb string) {
 			case 3:
 				h.doCall(ci, "readfrom", 0, bytes.Repeat([]byte("#"), 5000), false)
 				h.doCall(ci, "flush", 0, nil, false)
+			}
+		}
+	case "writeto-partial-wrapped":
+		if cb == "traffic" {
+			switch ci.traffic {
+			case 3:
+				h.doCall(ci, "discard", 700, nil, false)
+			case 4:
+				h.doCall(ci, "inbuf", 0, nil, false)
+				h.doCall(ci, "writeto", 100, nil, false)
+				h.doCall(ci, "inbuf", 0, nil, false)
+				h.doCall(ci, "writeto", -1, nil, false)
 			}
 		}
 	case "async-flood":
